@@ -169,3 +169,23 @@ def memo_calendars():
         return _CAL_CACHE[key]
     pmc.get_calendar = get_calendar
     pmc._mcx_memo = True
+
+
+def memo_observed_events():
+    """Observer.__new__ re-derives the observed-event table with inspect.signature on every
+    instantiation - including every unpickle of an Exchange snapshot.  It is a pure function of
+    the class, so the ledger-based searches memoise it per class (the real function still runs
+    once per class)."""
+    from tradingenv.events import Observer
+    if getattr(Observer, "_mcx_memo", False):
+        return
+    orig = Observer._get_observed_events
+    cache = {}
+
+    def cached(self):
+        cls = type(self)
+        if cls not in cache:
+            cache[cls] = orig(self)
+        return dict(cache[cls])
+    Observer._get_observed_events = cached
+    Observer._mcx_memo = True
